@@ -26,6 +26,7 @@ EXPLANATION = (
     "bootstrap connection equal the offsets computed from the struct format of the request header encoder; effect "
     "sets of the unknown/cancelled arms are empty; subclasses of Int32StringReceiver bound MAX_LENGTH and always "
     "drop the connection in lengthLimitExceeded."
+    " The length prefix of the framing base class stays unsigned 32-bit (`structFormat` / `prefixLength` not redefined)."
 )
 SHARED = [('C10', ['R2'], 'a request taken out of the table while the queue is being flushed is not written: its id is free and may be reused'), ('C10', ['R1'], 'requests kept across a reconnect stay in the ordered table that close() drains and fails'), ('C10', ['R5', 'R6', 'R7'], 'a request accepted by the broker client is eventually written or failed (connector hygiene, closed gate, written at once on a live connection)')]
 ASSUMPTIONS = ["Twisted Int32StringReceiver reassembles frames and calls lengthLimitExceeded for oversized prefixes",
